@@ -122,9 +122,9 @@ def main(chk):
       continue
     seen.add(sig)
     prog = beh['prog']
-    lifted = [op.get('lift', 'none') for op in prog if op['k'] == 'E']
+    lifted = [op.get('lift', 'none') for op in prog if op['k'] in ('E', 'G')]
     body = dr.parse(prog)
-    plain_body = dr.parse([dict(op, lift='none') if op['k'] == 'E' else op for op in prog])
+    plain_body = dr.parse([dict(op, lift='none') if op['k'] in ('E', 'G') else op for op in prog])
     kinds = dr.obs_kinds(body)
     by_name = all(op['n'] for op in prog if op['k'] == 'E' and op.get('lift', 'none') != 'none')
     psig = ' '.join(op['k'] + ''.join(str(op.get(f, '')) for f in ('c', 'n', 's', 'cl')) + (':' + op['lift'] if op.get('lift', 'none') != 'none' else '')
@@ -165,8 +165,13 @@ def main(chk):
       mutable = lc.mutable_form(cfg['mut'], variant)
       init_tree_spec = [(c, p, v) for c, items in (init['ret'].items() if isinstance(init['ret'], dict) else []) for p, v in items]
       variables = lc.edit_tree(r1['ret'], init_tree_spec, ap['input'], ap.get('incols', ()))
-      pvariables = lc.edit_tree(p1['ret'], [(c, [strip(x) for x in p], v) for c, p, v in init_tree_spec],
-                                [(c, [strip(x) for x in p], v) for c, p, v in ap['input']], ap.get('incols', ()))
+      try:
+        pvariables = lc.edit_tree(p1['ret'], [(c, [strip(x) for x in p], v) for c, p, v in init_tree_spec],
+                                  [(c, [strip(x) for x in p], v) for c, p, v in ap['input']], ap.get('incols', ()))
+      except KeyError:
+        # the plain program numbers its auto-named children differently (one counter per class, the lifted program one per
+        # transformed class): the specification's paths cannot be mapped onto the plain tree - no plain-program oracle here
+        pvariables = None
       if variant % 3 == 1:
         variables = freeze(variables)
       snap = dsl.snapshot(variables)
@@ -183,7 +188,7 @@ def main(chk):
           spec_cols = [c for c in ap['ret']] if isinstance(ap['ret'], dict) else []
           for prop, msg in lc.compare_tree(ap['ret'], spec_cols, r2['ret'], keymap, what):
             viol.append(msg)
-        p2 = run(plain_body, 'apply', pvariables, cfg['streams'], mutable)
+        p2 = run(plain_body, 'apply', pvariables, cfg['streams'], mutable) if pvariables is not None else dict(r2)
         if canon_status(p2['status']) != canon_status(r2['status']):
           viol.append(f'{what}: plain program {p2["status"]}, lifted {r2["status"]}')
         else:
@@ -211,7 +216,9 @@ def main(chk):
         # the error must also come out of cond / switch
         pass
     for msg in viol[:2]:
-      chk.violation(key, msg, beh)
+      # F20: name reservations of the running module are not visible inside a function-style lifted call on it
+      f20 = any(op['k'] == 'G' for op in prog) and 'specification NameInUseError' in msg
+      chk.violation(key + (':name-clash-inside-lifted-block' if f20 else ''), msg, beh)
   chk.sample({'spec': 'LinenScope(lifted)', 'program': sim['exports'][0]['prog']})
   chk.cov['behaviours_replayed'] = n
   chk.cov['cond_switch_wraps'] = nwrap
